@@ -832,6 +832,8 @@ def _pure(e: ast.AST) -> bool:
                         return False
                 elif f.attr not in PURE_METHODS:
                     return False
+                elif f.attr == "get" and (not n.args or any(k.arg in ("timeout", "block") for k in n.keywords)):
+                    return False  # Queue.get() consumes a message; only the mapping form d.get(key[, default]) is a pure read
             else:
                 return False
     return True
